@@ -58,21 +58,25 @@ type Result<T> = result::Result<T, CanonError>;
 /// Encode a `ciborium::value::Value` to deterministic CBOR bytes.
 pub fn encode_value(val: &Value) -> Result<Vec<u8>> {
     let mut out = Vec::new();
-    enc_value(val, &mut out)?;
+    enc_value(val, &mut out, 0)?;
     Ok(out)
 }
 
 /// Decode deterministic CBOR bytes into a `ciborium::value::Value`.
 pub fn decode_value(bytes: &[u8]) -> Result<Value> {
     let mut idx = 0usize;
-    let v = dec_value(bytes, &mut idx)?;
+    let v = dec_value(bytes, &mut idx, 0)?;
     if idx != bytes.len() {
         return Err(CanonError::Trailing);
     }
     Ok(v)
 }
 
-fn enc_value(v: &Value, out: &mut Vec<u8>) -> Result<()> {
+fn enc_value(v: &Value, out: &mut Vec<u8>, depth: usize) -> Result<()> {
+    if depth >= MAX_NESTING_DEPTH && matches!(v, Value::Array(_) | Value::Map(_)) {
+        // The decoder would refuse these bytes; refuse symmetrically.
+        return Err(CanonError::Encode("nesting depth limit exceeded".into()));
+    }
     match v {
         Value::Bool(b) => {
             out.push(if *b { 0xf5 } else { 0xf4 });
@@ -85,14 +89,14 @@ fn enc_value(v: &Value, out: &mut Vec<u8>) -> Result<()> {
         Value::Array(items) => {
             enc_len(4, items.len() as u64, out);
             for it in items {
-                enc_value(it, out)?;
+                enc_value(it, out, depth + 1)?;
             }
         }
         Value::Map(entries) => {
             let mut buf: Vec<(Value, Value, Vec<u8>)> = Vec::with_capacity(entries.len());
             for (k, v) in entries {
                 let mut kb = Vec::new();
-                enc_value(k, &mut kb)?;
+                enc_value(k, &mut kb, depth + 1)?;
                 buf.push((k.clone(), v.clone(), kb));
             }
 
@@ -107,7 +111,7 @@ fn enc_value(v: &Value, out: &mut Vec<u8>) -> Result<()> {
             enc_len(5, buf.len() as u64, out);
             for (_k, v, kb) in buf {
                 out.extend_from_slice(&kb);
-                enc_value(&v, out)?;
+                enc_value(&v, out, depth + 1)?;
             }
         }
         Value::Tag(_, _) => return Err(CanonError::Tag),
@@ -211,7 +215,13 @@ fn write_major(major: u8, n: u128, out: &mut Vec<u8>) {
     }
 }
 
-fn dec_value(bytes: &[u8], idx: &mut usize) -> Result<Value> {
+/// Maximum container nesting depth accepted by the decoder and produced by the encoder.
+///
+/// The codec is recursive; without a bound, a few hundred kilobytes of nested array heads
+/// overflow the stack. 128 matches `echo-edict-canonical`'s published nesting bound.
+pub const MAX_NESTING_DEPTH: usize = 128;
+
+fn dec_value(bytes: &[u8], idx: &mut usize, depth: usize) -> Result<Value> {
     fn need(bytes: &[u8], idx: usize, n: usize) -> Result<()> {
         if bytes.len().saturating_sub(idx) < n {
             Err(CanonError::Incomplete)
@@ -310,20 +320,39 @@ fn dec_value(bytes: &[u8], idx: &mut usize) -> Result<Value> {
             }
         }
         4 => {
-            let len = read_len(bytes, idx, info)? as usize;
+            if depth >= MAX_NESTING_DEPTH {
+                return Err(CanonError::Decode("nesting depth limit exceeded".into()));
+            }
+            let len = read_len(bytes, idx, info)?;
+            // Every element occupies at least one byte: a declared length beyond the
+            // remaining input can never be satisfied, and must not drive the allocation.
+            let remaining = bytes.len().saturating_sub(*idx);
+            let len = usize::try_from(len)
+                .ok()
+                .filter(|len| *len <= remaining)
+                .ok_or(CanonError::Incomplete)?;
             let mut items = Vec::with_capacity(len);
             for _ in 0..len {
-                items.push(dec_value(bytes, idx)?);
+                items.push(dec_value(bytes, idx, depth + 1)?);
             }
             Ok(Value::Array(items))
         }
         5 => {
-            let len = read_len(bytes, idx, info)? as usize;
+            if depth >= MAX_NESTING_DEPTH {
+                return Err(CanonError::Decode("nesting depth limit exceeded".into()));
+            }
+            let len = read_len(bytes, idx, info)?;
+            // Every entry occupies at least two bytes (key and value).
+            let remaining = bytes.len().saturating_sub(*idx);
+            let len = usize::try_from(len)
+                .ok()
+                .filter(|len| *len <= remaining / 2)
+                .ok_or(CanonError::Incomplete)?;
             let mut entries = Vec::with_capacity(len);
             let mut last_key: Option<Vec<u8>> = None;
             for _ in 0..len {
                 let key_start = *idx;
-                let k = dec_value(bytes, idx)?;
+                let k = dec_value(bytes, idx, depth + 1)?;
                 let key_end = *idx;
                 let kb = &bytes[key_start..key_end];
                 if let Some(prev) = &last_key {
@@ -334,7 +363,7 @@ fn dec_value(bytes: &[u8], idx: &mut usize) -> Result<Value> {
                     }
                 }
                 last_key = Some(kb.to_vec());
-                let v = dec_value(bytes, idx)?;
+                let v = dec_value(bytes, idx, depth + 1)?;
                 entries.push((k, v));
             }
             Ok(Value::Map(entries))
